@@ -240,7 +240,9 @@ func entryPoints(c *corpus) map[string]func(b []byte) string {
 			}
 			switch t := a.TeeAttestation.(type) {
 			case *tpmpb.Attestation_SevSnpAttestation:
-				return "snp " + errClass(gcetcbendorsement.SevValidate(ctx, t.SevSnpAttestation, &gcetcbendorsement.SevValidateOptions{Endorsement: genuine, RootsOfTrust: roots, Now: c.Now}))
+				// with the endorsement handed over, and with only a getter to fetch it through
+				return "snp " + errClass(gcetcbendorsement.SevValidate(ctx, t.SevSnpAttestation, &gcetcbendorsement.SevValidateOptions{Endorsement: genuine, RootsOfTrust: roots, Now: c.Now})) +
+					"|" + errClass(gcetcbendorsement.SevValidate(ctx, t.SevSnpAttestation, &gcetcbendorsement.SevValidateOptions{Getter: &getter{c.Endorsement}, RootsOfTrust: roots, Now: c.Now}))
 			default:
 				return "tdx " + errClass(gcetcbendorsement.TdxValidate(ctx, b, &gcetcbendorsement.TdxValidateOptions{Endorsement: genuine, RootsOfTrust: roots, Now: c.Now}))
 			}
@@ -327,9 +329,11 @@ func buildCorpus(r *mc.Run) *corpus {
 		"no-digest": func(g *epb.VMGoldenMeasurement) { g.Digest = nil }, "no-sevsnp": func(g *epb.VMGoldenMeasurement) { g.SevSnp = nil },
 		"no-tdx": func(g *epb.VMGoldenMeasurement) { g.Tdx = nil }, "no-bundle": func(g *epb.VMGoldenMeasurement) { g.CaBundle = nil },
 		"no-clspec": func(g *epb.VMGoldenMeasurement) { g.ClSpec = 0 }, "empty-measurements": func(g *epb.VMGoldenMeasurement) { g.SevSnp.Measurements = nil },
-		"nil-tdx-row": func(g *epb.VMGoldenMeasurement) { g.Tdx.Measurements = []*epb.VMTdx_Measurement{{}} },
+		"nil-tdx-row":  func(g *epb.VMGoldenMeasurement) { g.Tdx.Measurements = []*epb.VMTdx_Measurement{{}} },
 		"snp-bundle-1": func(g *epb.VMGoldenMeasurement) { g.SevSnp.CaBundle = pemCert },
-		"snp-bundle-2": func(g *epb.VMGoldenMeasurement) { g.SevSnp.CaBundle = append(append([]byte(nil), pemCert...), pemCert...) },
+		"snp-bundle-2": func(g *epb.VMGoldenMeasurement) {
+			g.SevSnp.CaBundle = append(append([]byte(nil), pemCert...), pemCert...)
+		},
 		"snp-bundle-3": func(g *epb.VMGoldenMeasurement) {
 			g.SevSnp.CaBundle = append(append(append([]byte(nil), pemCert...), pemCert...), pemCert...)
 		},
@@ -372,6 +376,20 @@ func buildCorpus(r *mc.Run) *corpus {
 	atts := map[string][]byte{"tpm-snp": tpmSnp, "snp-attestation-proto": snpProto, "report-proto": repProto, "raw-report": raw[:abi.ReportSize], "raw-report-response-4000": raw[:], "raw-report+certs": rawCerts,
 		"cert-table": table, "tdx-quote-proto": quoteProto, "raw-tdx-quote": quote, "tpm-tdx": tpmTdx,
 		"hex-raw-report": []byte(hex.EncodeToString(raw[:abi.ReportSize])), "base64-raw-quote": []byte(base64.StdEncoding.EncodeToString(quote))}
+	// Structurally thinner attestations of the wrapper format (a field-level deviation no byte
+	// substitution produces): the SEV-SNP attestation without its report, without its certificate
+	// chain, without extras in the chain, entirely empty; the TDX wrapper with an empty quote.
+	for name, a := range map[string]*tpmpb.Attestation{
+		"tpm-snp-without-report":                           {TeeAttestation: &tpmpb.Attestation_SevSnpAttestation{SevSnpAttestation: &spb.Attestation{CertificateChain: snp.CertificateChain}}},
+		"tpm-snp-without-chain":                            {TeeAttestation: &tpmpb.Attestation_SevSnpAttestation{SevSnpAttestation: &spb.Attestation{Report: snp.Report}}},
+		"tpm-snp-chain-without-extras":                     {TeeAttestation: &tpmpb.Attestation_SevSnpAttestation{SevSnpAttestation: &spb.Attestation{Report: snp.Report, CertificateChain: &spb.CertificateChain{VcekCert: att.Vcek()}}}},
+		"tpm-snp-empty":                                    {TeeAttestation: &tpmpb.Attestation_SevSnpAttestation{SevSnpAttestation: &spb.Attestation{}}},
+		"tpm-snp-report-without-chain-extras-empty-report": {TeeAttestation: &tpmpb.Attestation_SevSnpAttestation{SevSnpAttestation: &spb.Attestation{Report: &spb.Report{}, CertificateChain: &spb.CertificateChain{}}}},
+		"tpm-tdx-empty-quote":                              {TeeAttestation: &tpmpb.Attestation_TdxAttestation{TdxAttestation: &tpb.QuoteV4{}}},
+	} {
+		b, _ := proto.Marshal(a)
+		atts[name] = b
+	}
 	for _, ep := range []string{"extract.Attestation", "validate(attestation)", "extract.Endorsement(quote)"} {
 		for name, b := range atts {
 			add(ep, name, b)
